@@ -18,6 +18,7 @@ EXPLANATION = (
     " R04.6 (= R03.4) the remaining-sample counter counts recorded samples only: None while tuning, started from sample_count when collection starts.")
 EXPLANATION += (' R04.7 (= R15.12) --skip-ext-time given without a value is read by occurrence and stored as Some(true).')
 EXPLANATION += (' R04.8 (= R15.3) the command line relates only the documented mode switches: --max-time never drops --min-time.')
+EXPLANATION += (" R04.9 (= R15.2) the options handed to the sampling loop are the runner's merged over the entry's on every path.")
 NOT_DECIDED = ["agreement of the executed round count with a given clock history (needs a scripted clock - runtime family)"]
 
 # canonical atoms of the documented condition: continue  <=>  A and (B or C)
